@@ -17,9 +17,9 @@ ID = 'C04'
 def plan(tier):
     """(L, layouts, role names, depth, structural)"""
     if tier == 'quick':
-        return [(3, ('tri', 'trix', 'triw'), 'R', 0, False), (1, ('plain',), 'RBW', 2, True), (2, ('plain', 'rainbow'), 'RBWX', 2, True), (2, ('plain',), 'oq', 2, True),
+        return [(2, ('esc', 'esc2'), 'RW', 1, False), (3, ('tri', 'trix', 'triw'), 'R', 0, False), (1, ('plain',), 'RBW', 2, True), (2, ('plain', 'rainbow'), 'RBWX', 2, True), (2, ('plain',), 'oq', 2, True),
                 (3, ('plain', 'rainbow'), 'RBW', 2, True), (4, ('plain',), 'RW', 2, False), (3, ('parsed',), 'RW', 1, True), (3, ('plain',), 'egm', 2, False), (3, ('long',), 'RW', 2, False), (2, ('plain',), 'WN', 3, False), (2, ('plain',), 'RB', 3, False), (3, ('dup1', 'dup2'), 'RW', 1, False), (4, ('rs1', 'rs2'), 'RBW', 1, False), (2, ('wide', 'wide2'), 'RW', 1, False)]
-    return [(4, ('tri', 'trix', 'triw'), 'R', 0, False), (3, ('tri', 'trix', 'triw'), 'RW', 1, False), (1, ('plain',), 'RBWX', 3, True), (2, ('plain', 'rainbow'), 'RBWX', 3, True), (3, ('plain',), 'oqW', 2, True),
+    return [(2, ('esc', 'esc2'), 'RW', 2, False), (3, ('esc',), 'RW', 1, True), (4, ('tri', 'trix', 'triw'), 'R', 0, False), (3, ('tri', 'trix', 'triw'), 'RW', 1, False), (1, ('plain',), 'RBWX', 3, True), (2, ('plain', 'rainbow'), 'RBWX', 3, True), (3, ('plain',), 'oqW', 2, True),
             (3, ('plain', 'rainbow'), 'RBW', 3, False), (3, ('plain',), 'RBWXNT', 2, True),
             (4, ('plain', 'rainbow'), 'RBW', 2, True), (5, ('plain',), 'RW', 2, True), (6, ('plain', 'rainbow'), 'RW', 2, False), (3, ('plain',), 'egmB', 2, True), (4, ('plain',), 'eg', 2, False), (3, ('long',), 'RBW', 2, False), (3, ('dup1', 'dup2'), 'RW', 1, False), (4, ('rs1', 'rs2'), 'RBW', 2, False), (2, ('wide', 'wide2'), 'RW', 2, False), (3, ('wide',), 'RW', 1, False)]
 
@@ -134,6 +134,17 @@ def check_state(h, v, acc, record=True):
         kk = k % L
         if full_check(r, kk, kk + 1, 'v[%d]' % k, case):
             acc.validated += 1
+        # the AnsiStr twin of the integer index
+        acc.transitions += 1
+        case = {'hist': h, 'op': ['strindex', k]}
+        try:
+            rs = AnsiStr(build(h))[k]
+            if type(rs) is not AnsiStr:
+                bad.append(('slice-type', case, 'AnsiStr[%d] returned %s' % (k, type(rs).__name__)))
+            elif full_check(model.content(rs), kk, kk + 1, 'AnsiStr(v)[%d]' % k, case):
+                acc.validated += 1
+        except Exception as ex:  # noqa
+            bad.append(('index-raises', case, 'AnsiStr(v)[%d] raised %s: %s' % (k, type(ex).__name__, ex)))
     # step-1 slice objects, in-place clip, iteration
     for (i, j) in ((None, None), (1, None), (0, -1), (1, L), (-2, L + 1)):
         acc.transitions += 2
